@@ -7,9 +7,10 @@ CONSTANTS
   Lazy = FALSE
   MaxOps = 1000
   MaxHeld = 1000
+  OpSet = {"debit", "local", "retain", "finish"}
+  Atomic = FALSE
+  GtBug = FALSE
 SPECIFICATION TraceSpec
 INVARIANTS TypeOK AcceptedNeverExceedsCap ShadowNeverRejects ShadowRecordsCrossing OffCountsNothing RequiredRejectionLatches
-  BestEffortDoesNotLatch LatchedIsExhausted RefsOK PublishOnce PublishedWhenQuiescent
-PROPERTIES FirstRejectionLatched ClosedLedgerRejects ClosedIsFinal NoRetainAfterPublish
-POSTCONDITION TraceAccepted
+  BestEffortDoesNotLatch LatchedIsExhausted RefsOK PublishOnce PublishedWhenQuiescent NotAccepted
 CHECK_DEADLOCK FALSE
